@@ -289,6 +289,9 @@ def nodes_from_node_expression(
         responses = set()
         for permus in args_permutations:
             result = function(data_graph, *permus)
+            if result is None:
+                # the function has no result for these arguments
+                continue
             responses.add(result)
         return responses
     else:
